@@ -13,6 +13,8 @@ pub mod c04;
 #[cfg(feature = "plonk-std")]
 pub mod c05;
 #[cfg(feature = "plonk-std")]
+pub mod c06;
+#[cfg(feature = "plonk-std")]
 pub mod c07;
 #[cfg(feature = "plonk-std")]
 pub mod c08;
@@ -24,6 +26,10 @@ pub mod c10;
 pub mod c11;
 #[cfg(feature = "plonk-std")]
 pub mod c12;
+#[cfg(feature = "plonk-std")]
+pub mod c13;
+#[cfg(feature = "plonk-std")]
+pub mod c14;
 #[cfg(feature = "plonk-std")]
 pub mod gadget;
 #[cfg(feature = "plonk-std")]
@@ -57,12 +63,15 @@ pub fn dispatch(id: &str, tier: Tier, seed: u64, sub: Option<&str>) -> i32 {
             "C03" => return c03::run(tier, seed),
             "C04" => return c04::run(tier, seed),
             "C05" => return c05::run(tier, seed),
+            "C06" => return c06::run(tier, seed),
             "C07" => return c07::run(tier, seed),
             "C08" => return c08::run(tier, seed),
             "C09" => return c09::run(tier, seed),
             "C10" => return c10::run(tier, seed),
             "C11" => return c11::run(tier, seed),
             "C12" => return c12::run(tier, seed),
+            "C13" => return c13::run(tier, seed),
+            "C14" => return c14::run(tier, seed),
             "C15" => return c15::run(tier, seed),
             "C16" => return c16::run(tier, seed),
             "C17" => return c17::run(tier, seed),
